@@ -39,4 +39,47 @@ mod kani_h {
             assert!(v < 16);
         }
     }
+    // ISO 32000-1 7.4.4.2 / TIFF 6.0: LZW codes are packed into bytes most significant bit first. Reference: bit i of the stream is
+    // bit (7 - i % 8) of byte i / 8; an n-bit code is the big-endian number made of the next n bits.
+    fn bit_at(d: &[u8], p: usize) -> u32 {
+        ((d[p / 8] >> (7 - (p % 8) as u8)) & 1) as u32
+    }
+    // Complete over: every window of 4 data bytes, every start position inside the first two bytes (byte_pos 0..=1, bit_pos 0..=7),
+    // every n: u32. read_bits touches at most 3 bytes and addresses them relative to byte_pos (translation argument, stated in DESIGN).
+    #[kani::proof]
+    #[kani::unwind(18)]
+    fn c07_lzw_read_bits() {
+        let data: [u8; 4] = kani::any();
+        let len: usize = kani::any();
+        kani::assume(len <= 4);
+        let byte_pos: usize = kani::any();
+        let bit_pos: u8 = kani::any();
+        kani::assume(byte_pos <= 1 && byte_pos <= len && bit_pos < 8);   // the reader's invariant (wf in the Verus stub)
+        let n: u32 = kani::any();
+        let mut r = LzwBitReader { data: &data[..len], byte_pos, bit_pos };
+        let pos0 = byte_pos * 8 + bit_pos as usize;
+        let got = r.read_bits(n);
+        kani::cover!(got.is_some() && n == 12 && bit_pos == 5);
+        kani::cover!(got.is_none() && n == 9 && len == 2);
+        assert!(r.bit_pos < 8);
+        match got {
+            Some(v) => {
+                assert!(n >= 1 && n <= 16);
+                assert!(pos0 + n as usize <= 8 * len);
+                let mut want = 0u32;
+                let mut i = 0usize;
+                while i < n as usize {
+                    want = (want << 1) | bit_at(&data, pos0 + i);
+                    i += 1;
+                }
+                assert!(v == want);
+                assert!(r.byte_pos * 8 + r.bit_pos as usize == pos0 + n as usize);
+                assert!(r.byte_pos <= len);
+            }
+            None => {
+                assert!(n == 0 || n > 16 || (pos0 + n as usize > 8 * len && r.byte_pos * 8 + r.bit_pos as usize >= 8 * len));
+                assert!(r.byte_pos <= len || n == 0 || n > 16);
+            }
+        }
+    }
 }
